@@ -118,6 +118,17 @@ func Discovered(info *prom.ConfigInfo, rounds []map[string][]*targetgroup.Group)
 	return d.ActiveTargetsByHash(), d
 }
 
+// Rediscover starts a new Run loop on an existing TargetsDiscovery and feeds one more round.
+func Rediscover(d *discovery.TargetsDiscovery, round map[string][]*targetgroup.Group) map[uint64]*discovery.SDTargets {
+	ctx, cancel := context.WithCancel(context.Background())
+	defer cancel()
+	ch := make(chan map[string][]*targetgroup.Group, 1)
+	go func() { _ = d.Run(ctx, ch) }()
+	ch <- round
+	<-d.ActiveTargetsChan()
+	return d.ActiveTargetsByHash()
+}
+
 // Ship sends targets through JSON as the coordinator's POST does.
 func Ship(active map[uint64]*discovery.SDTargets) map[string][]*target.Target {
 	req := map[string][]*target.Target{}
